@@ -1608,7 +1608,7 @@ theorem recvFrom_data (r : Role) (d : Bool) (cap : Nat) (st : Option Open) (f : 
     split <;> (try split) <;> simp_all
   | some o =>
     have h' : Spec.Ws.violation r d true f = false := h
-    simp only [recvFrom, h', h9, h10, h8, openAfter, Bool.false_eq_true, if_false, Option.isSome, List.nil_append, Nat.zero_add]
+    simp only [recvFrom, h', h9, h10, h8, openAfter, Bool.false_eq_true, if_false, Option.isSome]
     split <;> (try split) <;> simp_all
 
 /-- The model is positioned at the payload of frame `f` (header consumed and accepted). -/
